@@ -1,1 +1,59 @@
+import Proofs.Diff
 import Model.Diff.Text
+import Model.Hash.Prep
+/-!
+# C02 — an empty diff means equal; a structural copy always gives an empty diff
+
+Model: `Model/Diff/Ordered.lean` (ordered comparison) and `Model/Diff/Text.lean` (views).
+`al` is the difflib oracle, `hashOf` the DeepHash oracle of `_diff_set`.
+-/
+namespace Diff
+open Py
+
+/-- **Copy ⇒ empty.** For every well-formed value of any size and nesting, every ordered
+configuration (both alignment modes, every threshold in [0,1], private-key handling, any
+exclude/include paths), every reflexive alignment oracle and every hasher: diffing the value with
+(a structural copy of) itself yields an empty tree, hence an empty text view at every verbosity. -/
+theorem C02_copy_empty (cfg : DCfg) (al : Align) (hashOf : PyVal → String) (hal : AlignRefl al)
+    (hc : cfg.thrNum ≤ cfg.thrDen) (t : PyVal) (hw : wf t = true) (verbose : Nat) :
+    (deepDiff cfg al hashOf t t).tree = [] ∧ (deepDiff cfg al hashOf t t).opcodes = [] ∧
+      textView verbose (deepDiff cfg al hashOf t t).tree = [] := by
+  have h := diffV_self cfg al hashOf hal hc t [] hw
+  have hempty : (deepDiff cfg al hashOf t t) = {} := by
+    unfold deepDiff
+    simp only [h]
+    split <;> split <;> simp [keepReported, mutualAddRemoves] <;> rfl
+  rw [hempty]
+  exact ⟨rfl, rfl, rfl⟩
+
+/-- the driver's difflib port satisfies the reflexivity assumption on the empty list and the model
+alignment that only ever emits `equal` blocks does in general -/
+theorem C02_alignRefl_of_equal_only (al : Align) (h : ∀ xs, ∀ op ∈ al xs xs, op.tag = "equal") : AlignRefl al := by
+  intro steps xs
+  have : ∀ ops : List Opcode, (∀ op ∈ ops, op.tag = "equal") → opcodeEntries steps xs xs ops = [] := by
+    intro ops
+    induction ops with
+    | nil => intro _; rfl
+    | cons op ops ih =>
+      intro hall
+      have h1 := hall op (by simp)
+      simp only [opcodeEntries, h1]
+      simp [ih (fun o ho => hall o (by simp [ho]))]
+  exact this _ (h xs)
+
+/-- **Negative witness (finding F5e).** `DeepDiff({'NONE'}, {None})` is empty in the model for every
+hasher: set items are compared by DeepHash, and `'NONE'` and `None` have the same pre-image. -/
+theorem C02_N_spoof_set (al : Align) (H : String → String) :
+    (deepDiff {} al (Hash.deepHash {} H) (.set [.str "NONE"]) (.set [.none])).tree = [] := by
+  have hh : Hash.deepHash {} H (.str "NONE") = Hash.deepHash {} H .none := rfl
+  have hs : ∀ steps, diffSet (Hash.deepHash {} H) steps [.str "NONE"] [.none] = [] := by
+    intro steps
+    simp [diffSet, hh]
+  have hskip : skipSteps {} [] = false := by decide
+  simp [deepDiff, hskip, diffV, hs, keepReported, mutualAddRemoves]
+
+/-! Non-vacuity: a nested value that satisfies `wf`. -/
+example : wf (.dict [(.str "a", .list [.int 1, .tuple [.none, .float 15 1]]), (.int 2, .set [.str "x", .bool true])]) = true := by
+  decide
+
+end Diff
